@@ -63,6 +63,7 @@ def run(cmd, cwd=None, env=None, timeout=None, check=False, stdin=None):
 
 
 _built = {}
+_prepared = set()
 
 
 def go_build(pkg, name, tags="verif", race=False):
@@ -77,9 +78,11 @@ def go_build(pkg, name, tags="verif", race=False):
         # whose replace directive points at that worktree; binaries go next to it.
         tag = hashlib.sha256(os.path.realpath(REPO).encode()).hexdigest()[:10]
         harness = os.path.join(tempfile.gettempdir(), "verif-harness-" + tag)
-        if os.path.exists(harness):
-            shutil.rmtree(harness)
-        shutil.copytree(HARNESS, harness)
+        if harness not in _prepared:
+            if os.path.exists(harness):
+                shutil.rmtree(harness)
+            shutil.copytree(HARNESS, harness)
+            _prepared.add(harness)
         gm = open(os.path.join(harness, "go.mod")).read()
         gm = gm.replace("github.com/pegnet/pegnetd => /repo", "github.com/pegnet/pegnetd => " + os.path.realpath(REPO))
         open(os.path.join(harness, "go.mod"), "w").write(gm)
